@@ -536,8 +536,7 @@ Proof.
     apply nth_error_In in Hn. apply filter_In in Hn. destruct Hn as [Hin Lx].
     split; [exact Hin|]. split; [reflexivity|exact Lx]. }
   destruct after.
-  - destruct (nth_error (filter live l) i) as [x|] eqn:Hn; [eapply G; eassumption|].
-    destruct (Nat.eqb i (length (filter live l))); discriminate H.
+  - destruct (nth_error (filter live l) i) as [x|] eqn:Hn; [eapply G; eassumption|discriminate H].
   - destruct i as [|j]; [discriminate H|].
     destruct (nth_error (filter live l) j) as [x|] eqn:Hn; [eapply G; eassumption|discriminate H].
 Qed.
@@ -556,8 +555,7 @@ Proof.
   destruct after.
   - destruct (nth_error (filter live l) i) as [x|] eqn:Hn.
     + inversion H; subst. rewrite (G _ _ Hn). cbn [negb]. f_equal. lia.
-    + destruct (Nat.eqb i (length (filter live l))) eqn:E; [|discriminate H].
-      inversion H; subst. apply Nat.eqb_eq in E. cbn [sticky_offset]. f_equal. symmetry. exact E.
+    + discriminate H.
   - destruct i as [|j].
     + inversion H; subst. reflexivity.
     + destruct (nth_error (filter live l) j) as [x|] eqn:Hn; [|discriminate H].
@@ -565,17 +563,26 @@ Proof.
 Qed.
 Print Assumptions sticky_resolves_next_to_anchor.
 
-(* every index in range can be made sticky *)
+(* every index in range can be made sticky: Before at every gap, After in front of every element (there is no element
+   at the very end, and the code answers None there) *)
 Theorem sticky_at_total : forall l i after,
-  i <= length (filter live l) -> exists an, sticky_at l i after = Some an.
+  i <= length (filter live l) -> (after = true -> i < length (filter live l)) ->
+  exists an, sticky_at l i after = Some an.
 Proof.
-  intros l i after L. unfold sticky_at, nth_live. destruct after.
+  intros l i after L La. unfold sticky_at, nth_live. destruct after.
   - destruct (nth_error (filter live l) i) as [x|] eqn:Hn; [eexists; reflexivity|].
-    apply nth_error_None in Hn. assert (E : i = length (filter live l)) by lia.
-    apply Nat.eqb_eq in E. rewrite E. eexists; reflexivity.
+    apply nth_error_None in Hn. specialize (La eq_refl). lia.
   - destruct i as [|j]; [eexists; reflexivity|].
     destruct (nth_error (filter live l) j) as [x|] eqn:Hn; [eexists; reflexivity|].
     apply nth_error_None in Hn. lia.
+Qed.
+
+(* and only those *)
+Theorem sticky_at_none_at_end : forall l, sticky_at l (length (filter live l)) true = None.
+Proof.
+  intros l. unfold sticky_at, nth_live.
+  destruct (nth_error (filter live l) (length (filter live l))) as [x|] eqn:Hn; [|reflexivity].
+  assert (length (filter live l) < length (filter live l)) by (apply nth_error_Some; rewrite Hn; discriminate). lia.
 Qed.
 
 (* --- insertions --- *)
